@@ -8,6 +8,10 @@ import PyttbModel.Spec.MutArray
 import PyttbModel.Lemmas.Arr
 import PyttbModel.Lemmas.ShapeOps
 import PyttbModel.Lemmas.ConvertSparse
+set_option linter.unusedSimpArgs false
+set_option linter.unusedVariables false
+set_option linter.unusedSectionVars false
+
 namespace Pyttb
 
 variable {α : Type}
